@@ -1,11 +1,14 @@
 package gen
 
 import (
+	"bytes"
+	"fmt"
 	"math"
 	"strconv"
 	"strings"
 
 	"github.com/tobgu/qframe"
+	"github.com/tobgu/qframe/config/csv"
 	"github.com/tobgu/qframe/config/groupby"
 	"github.com/tobgu/qframe/config/newqf"
 	"github.com/tobgu/qframe/types"
@@ -52,7 +55,7 @@ type FrameBounds struct {
 
 var intPool = []int{0, 1, -1, 2, 3, 7, 42, -42, 1 << 31, -(1 << 31), math.MaxInt64, math.MinInt64, 255, 256}
 var floatPool = []float64{0, math.Copysign(0, -1), 1, -1, 1.5, 0.1, 1e21, 1e-7, 123456789.125, math.MaxFloat64, math.SmallestNonzeroFloat64, 9007199254740993, 1e19, 9.3e18, -2.5e-300}
-var strPool = []string{"", "a", "b", "abc", "A", " ", " a ", "a,b", "\"", "\"\"", "a\"b", "\n", "a\nb", "é", "漢字", "\xff", "\xc3", "0", "1", "true", "null", "NaN", "'", "\\", "\t", "\x00", " ", "x\x01y", "ab", "a\x00", "$", "%", "é́", "\ufffd", "a\ufffdb", "\u2028", "\u2029", "\x7f", "\xed\xa0\x80", "\xf0\x9f\x98\x80", "\xc0\x80", "\ufeff", "\ufeffa"}
+var strPool = []string{"", "a", "b", "abc", "A", " ", " a ", "a,b", "\"", "\"\"", "a\"b", "\n", "a\nb", "é", "漢字", "\xff", "\xc3", "0", "1", "true", "null", "NaN", "'", "\\", "\t", "\x00", " ", "x\x01y", "ab", "a\x00", "$", "%", "é́", "\ufffd", "a\ufffdb", "\u2028", "\u2029", "\x7f", "\xed\xa0\x80", "\xf0\x9f\x98\x80", "\xc0\x80", "\ufeff", "\ufeffa", "\x0b", "\x08", "\x0c", "\x1f", "a\x0bb", "\x1b[0m", "\x85", "\u0085"}
 
 var pow10u = func() []uint64 {
 	p := []uint64{1}
@@ -662,4 +665,28 @@ func applyAgg(qf qframe.QFrame, op ScrOp) qframe.QFrame {
 		orders = append(orders, qframe.Order{Column: n})
 	}
 	return res.Sort(orders...)
+}
+
+// ViaCSV writes the frame with ToCSV and reads it back with the column types
+// declared: the same columns and rows (up to null/empty strings and NaN
+// payloads), built by the CSV reader instead of New - other buffers, other
+// layouts. ok is false when the detour does not give a frame of the same shape
+// (strings with CR, for one); callers then keep the original.
+func ViaCSV(qf qframe.QFrame, emptyNull bool) (qframe.QFrame, bool) {
+	if qf.Err != nil || len(qf.ColumnNames()) == 0 {
+		return qf, false
+	}
+	var buf bytes.Buffer
+	if err := qf.ToCSV(&buf); err != nil {
+		return qf, false
+	}
+	typs := map[string]string{}
+	for n, t := range qf.ColumnTypeMap() {
+		typs[n] = string(t)
+	}
+	back := qframe.ReadCSV(&buf, csv.Types(typs), csv.EmptyNull(emptyNull))
+	if back.Err != nil || back.Len() != qf.Len() || fmt.Sprint(back.ColumnNames()) != fmt.Sprint(qf.ColumnNames()) || fmt.Sprint(back.ColumnTypes()) != fmt.Sprint(qf.ColumnTypes()) {
+		return qf, false
+	}
+	return back, true
 }
